@@ -62,6 +62,9 @@ func (api *API) mapDecodeBasedOnType(ctx context.Context, mapVal any, value refl
 	valueType reflect.Type, ts TypeSettings, opts *options) error {
 	globalTS, _ := api.typeSettingsRegistry.GetByType(valueType)
 	ts = ts.merge(globalTS)
+	// whatever is entered below is not the object of the call any more (a further pointer level is, see below)
+	atCallObject := opts.atCallObject
+	opts.atCallObject = false
 	switch value.Kind() {
 	case reflect.Ptr:
 		if valueType == bigIntPtrType {
@@ -122,7 +125,7 @@ func (api *API) mapDecodeBasedOnType(ctx context.Context, mapVal any, value refl
 				// mirrors the encoder: the settings registered for the pointer type decide whether the bytes are wrapped
 				// in an object with the type code or written as a plain hex string
 				innerTS, _ := api.typeSettingsRegistry.GetByType(valueType)
-				if opts.callObject != 0 && value.Pointer() == opts.callObject {
+				if atCallObject {
 					// (the array is the object of the call: the settings of the call are its own)
 					innerTS = ts
 				}
@@ -153,6 +156,8 @@ func (api *API) mapDecodeBasedOnType(ctx context.Context, mapVal any, value refl
 			value.Set(reflect.New(elemType))
 		}
 		if elemType.Kind() == reflect.Ptr {
+			opts.atCallObject = atCallObject
+
 			return api.mapDecode(ctx, mapVal, value.Elem(), ts, opts)
 		}
 
